@@ -433,6 +433,20 @@ theorem stop_after_completion_resolves (y : Sys) (g : Bool) :
   refine ⟨?_, rfl, rfl⟩
   simp [lateCall, call, droppedAcks, Cmd.ack?]
 
+/-- **A restart that fails does not end the server** (C08's command-loop half): whichever restart attempt fails — the
+factory could not make the services —, handling the fault report leaves `stopping`, `returned`, `panicked` and the workers
+as they are and logs one event; the loop goes on, so a later fault is still followed by a restart attempt. -/
+theorem failed_restart_keeps_server_running (s : St) (idx : Nat) (hk : idx ∈ s.workers) :
+    (handle s (.workerFaulted idx)).stopping = s.stopping ∧ (handle s (.workerFaulted idx)).returned = s.returned ∧
+    (handle s (.workerFaulted idx)).panicked = s.panicked ∧ (handle s (.workerFaulted idx)).workers = s.workers ∧
+    (handle s (.workerFaulted idx)).log = s.log ++ (if s.failAt = some s.restarts then [.restartFailed idx] else [.restartWorker idx, .wake (.worker idx)]) ∧
+    (handle s (.workerFaulted idx)).restarts = s.restarts + 1 := by
+  simp [handle, hk, emit]
+
+example : (serveFailing true 2 0 [.faulted 0, .faulted 1]).log = [.restartFailed 0, .restartWorker 1, .wake (.worker 1)] ∧
+    (serveFailing true 2 0 [.faulted 0, .faulted 1]).returned = false ∧
+    (serveFailing true 2 0 [.faulted 0, .faulted 1, .stop true]).returned = true := by decide
+
 /-- **A dropped stop future still stops the server**: `ServerHandle::stop` puts the command into the
 channel when it is *called*; the returned future only waits for the ack.  Whatever other calls are
 made before or after, the server handles a `Stop` and `run` returns. -/
